@@ -44,3 +44,10 @@ CHECKS["C13"] = {
   "text": "Every annotation of the bounded shapes (1-3 features, 1-3 locations, both strands, defect flags) on every sequence length and start is sliced with every slice form and compared base by base with a model in which each location is the set of positions it covers; feature get/set, reverse complement (single against a mirror model, double against the original), copies and container operations are enumerated likewise. ~8.8 M cases quick, ~36 M thorough.",
   "note": "Trusts the per-base model in props/c13.py written from the property statement; 2 features x 2 locations each is replaced by 1 feature x 2-3 locations plus 2-3 features x 1 location.",
 }
+CHECKS["C17"] = {
+  "engine": "E2-input-enumerator",
+  "technique": "complete enumeration of annotation patterns (all sequences of length 0..4/5 over a 24-letter atom alphabet), all index arrays of length <=2, all labelled graphs on <=6/7 vertices, plus a size ladder of path/ring/comb/tree/star graphs up to 3*10^5 / 10^6 atoms in forked children, against per-atom loops and union-find",
+  "ref": "DESIGN.md section 4 C17; notes/C17.md",
+  "text": "Every annotation pattern in the bound (331,776 arrays at length 4; stacks for a fixed stride) is pushed through every residue/chain view (starts, masks, starts_for, positions, counts, names, iteration, apply with 7 reducing functions, spread) and compared with a per-atom recomputation; every labelled graph on <= 6 vertices through every molecule entry point against union-find components; the size ladder runs each entry point in a forked child (a crash or hang is an observation).",
+  "note": "Trusts the per-atom model and union-find in props/c17.py; length-5 patterns use two 12-letter sub-alphabets; star graphs are capped at 3000 atoms (get_all_bonds is atoms x max degree).",
+}
